@@ -408,6 +408,31 @@ def check(index, ctx):
                                     f"`{x.id}` is a torch tensor on all {len(kinds)} reaching definitions",
                                     f"`{x.id}` reaches `{norm_text(b)}` (other operand: the input tensor) as {bad}: numpy array @ torch tensor raises TypeError", fwd.loc(b),
                                     derivation=kinds)
+    # ... the same through a helper method that forward hands both operands to (`self._cap(alpha, matrix)` with `alpha @ matrix` inside)
+    for n in fcfg.stmt_nodes():
+        for e in own_exprs(n):
+            for c in ast.walk(e):
+                if not (isinstance(c, ast.Call) and isinstance(c.func, ast.Attribute) and isinstance(c.func.value, ast.Name) and c.func.value.id == "self" and c.func.attr in cls.methods):
+                    continue
+                H = cls.methods[c.func.attr]
+                hp = [a.arg for a in H.node.args.args[1:]]
+                if len(hp) != len(c.args) or c.keywords or not all(isinstance(a, ast.Name) for a in c.args):
+                    continue
+                bound = dict(zip(hp, [a.id for a in c.args]))
+                for b in ast.walk(H.node):
+                    if isinstance(b, ast.BinOp) and isinstance(b.op, ast.MatMult):
+                        for x, o in ((b.left, b.right), (b.right, b.left)):
+                            if isinstance(x, ast.Name) and isinstance(o, ast.Name) and x.id in bound and o.id in bound and bound[o.id] in params_t and bound[x.id] not in params_t \
+                                    and not any(isinstance(y, ast.Name) and y.id == x.id and isinstance(y.ctx, ast.Store) for y in ast.walk(H.node)):
+                                n_sites += 1
+                                actual = bound[x.id]
+                                rd = reaching_defs(fcfg, actual)[n]
+                                kinds = {norm_text(d.ast): (expr_kind(d.ast.value, field_kinds, cls) if isinstance(d.ast, ast.Assign) else "same") for d in rd}
+                                bad = {k: v for k, v in kinds.items() if v not in ("tensor", "same")}
+                                ctx.require(not bad and bool(kinds), "R3", f"forward: `{norm_text(b)}` in {H.name} (called with `{actual}`) operand kinds",
+                                            f"`{actual}` is a torch tensor on all {len(kinds)} definitions reaching the call",
+                                            f"`{actual}` reaches `{norm_text(b)}` in {H.name} (other operand: the input tensor) as {bad}: numpy array @ torch tensor raises TypeError", fwd.loc(c),
+                                            derivation=kinds)
     ctx.floor("weights·matrix sites in forward", n_sites, 1)
     # in-place operations on a value that may share memory with stored state (stored weights must be reused unchanged)
     for n in fcfg.stmt_nodes():
